@@ -137,6 +137,66 @@ Proof.
   - intros. apply user_accept_inv. assumption.
 Qed.
 
+(* ---- ledger transaction payloads (RawLedgerTransaction; every LedgerTransaction variant: Genesis flash /
+   Genesis system transaction / UserV1 / RoundUpdateV1 / FlashV1 / UserV2), model `prepare_ledger`:
+   check_len (ledger limit), payload prefix, enum header [Enum; Ledger; 1], read_enum_header, check_length
+   per arm (Genesis: a second header with check_length 0 / 1), nested transaction (abstract decoder, as for
+   user payloads), check_complete. ---- *)
+(* an accepted ledger payload is, byte for byte, the header determined by its variant followed by the nested
+   transaction, which its decoder consumes completely; and it is within the ledger size limit *)
+Theorem C32_ledger_accepted_is_canonical_envelope :
+  forall (A : Type) (decode_inner : ledger_variant -> bytes -> result (A * bytes)) unknown s payload v a,
+  prepare_ledger A decode_inner unknown s payload = Ok (v, a) ->
+  N.of_nat (length payload) <= max_ledger_payload_length s /\
+  exists body, payload = ledger_header v ++ body /\ ledger_content_ok A decode_inner v a body [].
+Proof. exact prepare_ledger_accept_inv. Qed.
+(* hence: anything that is not `ledger_header v ++ body` is rejected — a wrong prefix / value kind / Ledger
+   discriminator, an unknown variant, ANY other encoding of the two size fields (0, 2, multi-byte, non-minimal:
+   offsets 3 and 6 are exactly the byte 1), a wrong genesis sub-header — as is a payload over the ledger limit *)
+Theorem C32_ledger_noncanonical_rejected :
+  forall (A : Type) (decode_inner : ledger_variant -> bytes -> result (A * bytes)) unknown s,
+  (forall payload, (forall v body, payload <> ledger_header v ++ body) ->
+     rejected (prepare_ledger A decode_inner unknown s payload))
+  /\ (forall payload v a, prepare_ledger A decode_inner unknown s payload = Ok (v, a) ->
+       nth 3 payload 0 = 1 /\ nth 6 payload 0 = 1 /\ nth 0 payload 0 = MANIFEST_SBOR_V1_PAYLOAD_PREFIX /\
+       nth 1 payload 0 = VK_ENUM /\ nth 2 payload 0 = D_LEDGER /\ nth 4 payload 0 = VK_ENUM)
+  /\ (forall payload, max_ledger_payload_length s < N.of_nat (length payload) ->
+       prepare_ledger A decode_inner unknown s payload = Err ETransactionTooLarge)
+  /\ (forall p1 p2 v a1 a2 body,
+       prepare_ledger A decode_inner unknown s p1 = Ok (v, a1) ->
+       prepare_ledger A decode_inner unknown s p2 = Ok (v, a2) ->
+       skipn (length (ledger_header v)) p1 = body -> skipn (length (ledger_header v)) p2 = body -> p1 = p2).
+Proof.
+  intros A dec unk s. split; [apply ledger_noncanonical_rejected|].
+  split; [apply ledger_size_bytes|]. split; [apply ledger_too_large_rejected|apply ledger_accepted_unique].
+Qed.
+(* the ledger hash: H([prefix; Ledger; kind] ++ inner hash).  The input determines (kind, inner hash); under
+   collision-freeness on the two inputs the ledger hashes are equal iff kind and inner hash are; the input is
+   never the input of another hashed payload part (domain separation by the Ledger discriminator). *)
+Theorem C32_ledger_hash_input_injective : forall k i k' i',
+  ledger_hash_input k i = ledger_hash_input k' i' -> k = k' /\ i = i'.
+Proof. exact ledger_hash_input_inj. Qed.
+Theorem C32_ledger_hash_sensitivity : forall (H : bytes -> bytes) v i v' i',
+  CollisionFreeOn H [ledger_hash_input (ledger_kind_for_hash v) i; ledger_hash_input (ledger_kind_for_hash v') i'] ->
+  (ledger_hash H v i = ledger_hash H v' i' <-> ledger_kind_for_hash v = ledger_kind_for_hash v' /\ i = i').
+Proof. exact ledger_hash_sensitivity. Qed.
+Theorem C32_ledger_hash_domain_separated : forall (H : bytes -> bytes) p k i,
+  is_payload_part p = true -> part_input H p <> ledger_hash_input k i.
+Proof. exact ledger_input_not_payload_part. Qed.
+Example C32_ledger_nonvacuous :
+  prepare_ledger unit (fun _ b => Ok (tt, skipn 3 b)) EUnknownDiscriminator settings_latest
+    [77; 34; 7; 1; 34; 4; 1; 33; 2; 9] = Ok (LUserV2, Some tt)
+  /\ rejected (prepare_ledger unit (fun _ b => Ok (tt, skipn 3 b)) EUnknownDiscriminator settings_latest
+    [77; 34; 7; 1; 34; 4; 2; 33; 2; 9])
+  /\ rejected (prepare_ledger unit (fun _ b => Ok (tt, skipn 3 b)) EUnknownDiscriminator settings_latest
+    [77; 34; 7; 1; 34; 4; 129; 0; 33; 2; 9])
+  /\ prepare_ledger unit (fun _ b => Ok (tt, skipn 3 b)) EUnknownDiscriminator settings_latest
+    [77; 34; 7; 1; 34; 0; 1; 34; 0; 0] = Ok (LGenesisFlash, None).
+Proof.
+  split; [vm_compute; reflexivity|]. split; [eexists; vm_compute; reflexivity|].
+  split; [eexists; vm_compute; reflexivity|vm_compute; reflexivity].
+Qed.
+
 (* Non-vacuity: a concrete hash function nv_H (32-byte output for every input) and a concrete pair
    of small V2 transactions (one subintent, one blob, one child hash) differing in one byte of the
    subintent's message: all hypotheses of C32_field_sensitivity hold (well-formed, 32-byte digests,
@@ -174,3 +234,5 @@ Qed.
 Print Assumptions C32_hash_input_injective.
 Print Assumptions C32_field_sensitivity.
 Print Assumptions C32_noncanonical_rejected.
+Print Assumptions C32_ledger_accepted_is_canonical_envelope.
+Print Assumptions C32_ledger_noncanonical_rejected.
